@@ -120,10 +120,15 @@ def replay(job, path, lenient=False):
 def gate(job, v):
     '''Determinism gate: the violation must reproduce twice through the real
     run()/simulate() (E2) with the same clause at the same step.'''
+    import gc
+    from .explorer import _Quiet
     obs = []
-    for _ in range(2):
-        r = replay(job, v['path'])
-        obs.append((r.get('clause'), r.get('step')))
+    with _Quiet():
+        for _ in range(2):
+            r = replay(job, v['path'])
+            obs.append((r.get('clause'), r.get('step')))
+        r = None
+        gc.collect()        # library objects print from __del__ (ReservedResources): keep that out of the verdict lines
     want = (v['clause'], len(v['path']))
     ok = all(o[0] == want[0] for o in obs) and obs[0] == obs[1]
     return ok, obs
